@@ -17,7 +17,8 @@ EXPLANATION = (
     'get_wbits accepts exactly 8..15; the sync-flush trailer stripped on send equals the one appended (once per '
     'message) on receive; RSV1 is set only on compressor output and compressor output is always sent with RSV1; '
     'inflation is selected by RSV1 of the first frame and applied to the whole fragment list in order; inflate '
-    'errors become CriticalProtocolError; one Deflate object serves both directions.')
+    'errors become CriticalProtocolError; one Deflate object serves both directions.'
+    ' Also decided: package-wide isolation (objects created once per class or per function definition - class-level attributes, parameter defaults - are only read), so that no buffer, validator, cache, lock or option table is shared between connections by accident.')
 NOT_DECIDED = ('losslessness, context-takeover histories, zlib behaviour, fragmentation of compressed messages as '
                'values, header spellings')
 ASSUMPTIONS = ['zlib raw deflate/inflate with matching windows round-trips', 'zlib accepts wbits -9..-15 for raw '
